@@ -86,6 +86,9 @@ func interpMain(seed uint64, n int, outDir, gen string) error {
 				sb.WriteString(line + "\n")
 				enc.Encode(c)
 				count++
+				if c.Impl.Status == "crash" {
+					break // the later instants of a program that takes the process down would do the same
+				}
 			}
 			kinds["program"]++
 		}
